@@ -53,6 +53,9 @@ pub fn fuzz_shard(ctx: &ShardCtx, known: &Known) -> ShardOut {
         .arg(&corpus)
         .arg("--")
         .arg(format!("-runs={}", runs))
+        // the campaign ends at `runs` executions per job or after this many seconds, whichever
+        // comes first (executions per second fall from ~80 to ~6 per job as the corpus grows)
+        .arg(format!("-max_total_time={}", std::env::var("JV_FUZZ_SECS").ok().and_then(|s| s.parse::<u64>().ok()).unwrap_or(600)))
         .arg(format!("-seed={}", (ctx.seed % 4_000_000_000).max(1)))
         .args(["-len_control=0", "-max_len=1024", "-print_final_stats=1", "-timeout=60", "-rss_limit_mb=4096"])
         .arg(format!("-jobs={}", jobs))
